@@ -67,6 +67,10 @@ def run(prog, rep):
         "are equal (8 combinations); viewport: accepts <=> 2-element list/tuple/array; event values."
     )
     n_guards = 0
+    # an accepted argument is stored with the shape it was accepted with: a constructor conversion must not change it (converting to a
+    # sub-array dtype appends that dtype's shape - the refusal decisions stay right, the accepted block mis-sizes its encoding)
+    from ..staging import constructor_dtypes
+    rep.attempt(constructor_dtypes, prog, cd, rep, "accepted-shape-is-stored")
     # ---- fixed-shape array parameters
     for modname, cname, params in ARRAY_PARAMS:
         c = prog.need_cls(cname, modname)
